@@ -15,6 +15,14 @@ from .schema import BASE, TYPES, Schema
 from .source import AnalysisError, Project, dotted
 
 
+def _parses(a: str) -> bool:
+    try:
+        ast.parse(a, mode="eval")
+        return True
+    except SyntaxError:
+        return False
+
+
 def v_rules(schema: Schema, rep: Report):
     p = schema.p
     rel = p.module(BASE).relpath
@@ -41,26 +49,55 @@ def v_rules(schema: Schema, rep: Report):
     # `text or from_etree(elem)`: the text when there is some, the conversion otherwise - both branches in one expression
     either = {f"{elem}.text or Aggregate.from_etree({elem})", f"{elem}.text or {cls}.from_etree({elem})"}
     good |= either
-    for n, v, kind in stores:
-        vals = sorted({text(x) for x in resolve_values(v, n, reach)})
-        ok = bool(vals) and set(vals) <= good and (f"{elem}.text" in vals or bool(set(vals) & either))
-        rep.check("V-R1", f"update_args:{kind}:value", ok, f"stored value can be {vals}; expected the element's text / its conversion, unmodified" if not ok else "", f"{rel}:{n.stmt.lineno}")
-    # branch discipline: text -> data element; no text -> recurse; unsupported -> None
-    val_assigns = [s for s in own_statements(inner) if isinstance(s, (ast.Assign, ast.AnnAssign)) and s.value is not None and text(s.value) in good]
-    for s in val_assigns:
-        tv = text(s.value)
-        par = getattr(s, "_parent", None)
-        cond = text(norm(par.test)) if isinstance(par, ast.If) else None
-        exp_cond = ex.t(par.test) if isinstance(par, ast.If) else None
-        if tv == f"{elem}.text":
-            ok = isinstance(par, ast.If) and s in par.body and cond == f"{elem}.text"
-            rep.check("V-R1", "update_args:text-branch", ok, f"element text is taken under condition `{cond}`" if not ok else "", f"{rel}:{s.lineno}")
-        elif "from_etree" in tv:
-            ok = isinstance(par, ast.If) and s in par.orelse
-            rep.check("V-R1", "update_args:aggregate-branch", ok, "sub-aggregates are converted although the element has text (or unconditionally)" if not ok else "", f"{rel}:{s.lineno}")
-        elif tv == "None":
-            ok = isinstance(par, ast.If) and s in par.body and exp_cond is not None and "unsupported" in exp_cond
-            rep.check("V-R1", "update_args:none-only-for-unsupported", ok, f"a declared child's value is replaced by None under `{cond}`" if not ok else "", f"{rel}:{s.lineno}")
+    # decided path by path (so the choice may be spelled as nested ifs, early returns of an inlined helper, a
+    # conditional expression): which value reaches the store, and under which conditions
+    from . import paths as PT
+
+    try:
+        ppl = PT.enumerate_paths(inner, None, ex, resolve=False)
+    except AnalysisError as e:
+        ppl = None
+        rep.note(f"V-R1 undecided: {e}")
+    if ppl is not None:
+        pcfg = ppl.cfg
+        has_text = PT.canon_atom(ast.parse(f"{elem}.text", mode="eval").body)[0]
+        for n, v, kind in stores:
+            # the same statement in the path CFG
+            pn = [x for x in pcfg.nodes if x.stmt is n.stmt and x.kind == n.kind]
+            if not pn:
+                rep.note(f"V-R1 undecided: store at line {n.stmt.lineno} not found on the enumerated paths")
+                continue
+            pn = pn[0]
+            seen_vals = set()
+            bad_text = bad_agg = bad_none = None
+            for q in ppl:
+                i = q.index_of(pn.id)
+                if i is None:
+                    continue
+                val = PT.value_on_path(q, pcfg, v, upto=i)
+                tv = text(val)
+                seen_vals.add(tv)
+                facts = PT.simple_conds(q.conds_before(pn.id) or [])
+                if tv == f"{elem}.text":
+                    if facts.get(has_text) is not True:
+                        bad_text = facts
+                elif tv in (f"Aggregate.from_etree({elem})", f"{cls}.from_etree({elem})"):
+                    if facts.get(has_text) is not False:
+                        bad_agg = facts
+                elif tv == "None":
+                    if not any("unsupported" in ex.t(ast.parse(a, mode="eval").body) and w is True for a, w in facts.items() if _parses(a)):
+                        bad_none = facts
+            vals = sorted(seen_vals)
+            ok = bool(vals) and set(vals) <= good and (f"{elem}.text" in vals or bool(set(vals) & either))
+            rep.check("V-R1", f"update_args:{kind}:value", ok, f"stored value can be {vals}; expected the element's text / its conversion, unmodified" if not ok else "", f"{rel}:{n.stmt.lineno}")
+            if not ok:
+                continue
+            if f"{elem}.text" in vals:
+                rep.check("V-R1", f"update_args:{kind}:text-branch", bad_text is None, f"element text is taken on a path that has not established that the element has text (conditions: {dict(list(bad_text.items())[:4]) if bad_text else ''})" if bad_text is not None else "", f"{rel}:{n.stmt.lineno}")
+            if any("from_etree" in x and x not in either for x in vals):
+                rep.check("V-R1", f"update_args:{kind}:aggregate-branch", bad_agg is None, "sub-aggregates are converted although the element has text (or unconditionally)" if bad_agg is not None else "", f"{rel}:{n.stmt.lineno}")
+            if "None" in vals:
+                rep.check("V-R1", f"update_args:{kind}:none-only-for-unsupported", bad_none is None, f"a declared child's value is replaced by None on a path that has not established that the child is Unsupported (conditions: {dict(list(bad_none.items())[:4]) if bad_none else ''})" if bad_none is not None else "", f"{rel}:{n.stmt.lineno}")
 
     rep.rule("V-R2", "list members keep document order: the reducer appends (never inserts / prepends), functools.reduce folds the children left to right, _apply_args iterates its arguments in order and appends each")
     for n, v, kind in stores:
